@@ -383,6 +383,43 @@ def test_text_functions_and_flatten_value():
     eq(c11.ctor_sql({"k1": None, "k2": None, "k3": 1}, "oc"), "object_construct('k1', NULL, 'k2', NULL, 'k3', 1)", "run as SQL")
 
 
+def test_routes():
+    import json as _json
+
+    # every text a document travels as denotes the document; the escapes asked for are all there
+    alltext = ""
+    for d in c11.ROUTE_DOCS:
+        ts = c11.route_texts(d)
+        expect(len(ts) == len(set(ts)) and len(ts) >= 1, "texts distinct")
+        for t in ts:
+            expect(_json.loads(t) == d, f"text {t!r} denotes the document")
+            alltext += t
+    for esc in ('\\\\', '\\"', "\\n", "\\t", "\\r", "\\/", "\\u00e9", "\\u0001", "é"):
+        expect(esc in alltext, f"escape {esc} occurs in some text")
+    expect(any(isinstance(x, str) and x.endswith("\\") for d in c11.ROUTE_DOCS for x in c11._strings(d)), "a string ending in a backslash")
+    eq(c11._sqlstr('a\\b\'c'), "'a\\\\b''c'", "literal with doubled quote")
+    eq(c11._sqlstr_bq('a\\b\'c'), "'a\\\\b\\'c'", "literal with backslash-quote")
+    eq(c11.esc_feature({"a": "back\\nslash"}), "b", "esc b")
+    eq(c11.esc_feature({"a": "t\tab", "B": "é"}), "cu", "esc cu")
+    eq(c11.esc_feature({"a": "q\"x"}), "q", "esc q")
+    eq(c11.esc_feature({"n": 1}), "-", "esc none")
+    for r in c11.ROUTES:
+        rows = c11.route_rows(r)
+        expect(len(rows) >= 3, f"{r}: rows")
+        if r.startswith("write_pandas"):
+            expect(all(t is None or d is U for d, t in rows), f"{r}: python values, no text")
+            expect(all(isinstance(d, (dict, list)) for d, _t in rows if d is not M and d is not U), f"{r}: containers only")
+        else:
+            expect(all(_json.loads(t) == d for d, t in rows), f"{r}: text rows")
+    eq(c11.route_rows("write_pandas.null_first")[0][0], M, "NULL first")
+    eq(c11.route_rows("write_pandas.null_last")[-1][0], M, "NULL last")
+    eq(c11.route_rows("write_pandas.string_first")[0], (U, "1"), "string first: its own value is not demanded")
+    eq(c11.route_rows("write_pandas.flat_null_first")[1][0], {"a": "back\\nslash", "n": 1}, "flat documents")
+    ex = c11.route_exprs("quick", [{"a": "x"}])
+    expect(((), "colon", "root", "{S}", "raw") in ex and not any(c[0] == () and c[4] == "varchar" for c in ex), "root: raw only")
+    expect((("a",), "bracket", "K", "{S}['a']", "varchar") in ex and (("zz",), "colon", "p", "{S}:zz", "raw") in ex, "paths and negatives")
+
+
 def test_oracle_on_synthetic_observations():
     j = c11._judge
     expect(j("json", "Str", ("ok", ['"Str"'])), "right extraction")
@@ -399,7 +436,7 @@ def test_oracle_on_synthetic_observations():
 
 if __name__ == "__main__":
     for t in (test_navigation, test_conversions, test_array_size_flatten_constructors_split, test_3vl, test_matches, test_ops_table,
-              test_generators, test_nested, test_text_functions_and_flatten_value, test_oracle_on_synthetic_observations):  # fmt: skip
+              test_generators, test_nested, test_text_functions_and_flatten_value, test_routes, test_oracle_on_synthetic_observations):  # fmt: skip
         print(t.__name__)
         t()
     print("FAILED" if FAILS else "ok", f"({len(FAILS)} failures)")
